@@ -48,7 +48,7 @@ type Env struct {
 	cleanup []func()
 }
 
-var baseULIDTime = uint64(1700000000000)
+var baseULIDTime = uint64(946000000000) // before the bubble epoch (2000-01-01), so that ids made by the server later sort after ours
 
 // NewULID returns a deterministic, monotonically increasing ULID for run-local ids.
 func (e *Env) NewULID(n int) string {
